@@ -183,11 +183,16 @@ namespace NLE.Life
 
 /-- A stop call begins (not refused): the election stops running; the call's critical section follows. -/
 theorem stopBegin_inv {x : Inst} (inv : LInv x) (hp : x.pendingFlag = none) (n : Nat) :
-    LInv { x with stops := { n := n, wasLeader := x.flag } :: x.stops, running := false, everStopped := true, stopPendingTrans := true } := by
+    LInv { x with stops := { n := n, wasLeader := x.flag } :: x.stops, running := false, everStopped := true, stopPendingTrans := true, startFailed := false } := by
   obtain ⟨c1, c2, c3, c4, c5, c6, c7, c8, c9, c10, c11, c12, c13⟩ := inv
   constructor
   case ctxLive => exact c13
   all_goals simp_all [b2n, o2n]
+
+/-- A Start that failed half-way changes nothing the invariant speaks about. -/
+theorem startFail_inv {x : Inst} (inv : LInv x) : LInv { x with ctxNil := false, startFailed := true } := by
+  obtain ⟨c1, c2, c3, c4, c5, c6, c7, c8, c9, c10, c11, c12, c13⟩ := inv
+  exact ⟨c1, c2, c3, c4, c5, c6, c7, c8, c9, c10, c11, c12, c13⟩
 
 theorem startRet_inv {x : Inst} (inv : LInv x) (hf : x.flag = false) (hp : x.pendingFlag = none) (hs : x.stopPendingTrans = false) :
     LInv { x with running := true, everStopped := false, ctxNil := false, state := 1 } := by
@@ -284,6 +289,11 @@ theorem step_inv {s s' : Sys} {e : TEv} (inv : SysInv s) (h : step s e = .ok s')
                 | none => rfl
                 | some _ => simp [hp] at hg
               exact set_inv inv (startRet_inv hxi (by simpa using hg.1) hpn (by simpa using hg.2.2))
+        · -- start failed
+          split at h
+          · cases h; exact inv
+          · cases h
+            exact set_inv inv (startFail_inv hxi)
         · cases h; exact inv
         · -- stop returns
           split at h
